@@ -106,6 +106,7 @@ def _c20_sweep(tier):
                 sites += [{"site": "cbi", "k": k, "j": j} for k in (1, 2) for j in range(jmax + 1, 41)]
             # the k-th compile request of this solve raises (caches / derivative callables half built)
             sites += [{"site": "compile", "k": k} for k in range(1, (7 if tier == "quick" else 13))]
+            sites += [{"site": "compile", "of": of, "k": 1} for of in ("compile_hessian", "compile_jacobian")]
             # optyx's own evaluations of the compiled callables after the solver returned
             # (the post-solve feasibility check)
             sites += [{"site": "eval", "after_exit": j} for j in range(1, (3 if tier == "quick" else 7))]
@@ -113,7 +114,7 @@ def _c20_sweep(tier):
             sites += [{"site": "eval", "of": of, "k": k} for of in ("compile_hessian", "compile_jacobian", "compile_expression")
                       for k in ((1, 2) if tier == "quick" else (1, 2, 3, 5))]
         for site in sites:
-            for exc in (gen.EXC_CLASSES if site["site"] not in ("cbi", "eval", "compile") or tier != "quick" or "of" in site else ["KeyboardInterrupt", "ValueError"]):
+            for exc in (gen.EXC_CLASSES if site["site"] not in ("cbi", "eval", "compile") or tier != "quick" or ("of" in site and site["site"] == "eval") else ["KeyboardInterrupt", "ValueError"]):
                 f = dict(site, exc=exc)
                 ops = sc["prefix"] + [gen.with_fault(sc["target"], f)] + sc["suffix"]
                 tag = f"sc{i - 1}:{evs[0].get('method')}:K{K}:{site['site']}{site.get('k', '')}j{site.get('j', '')}a{site.get('after_exit', '')}o{site.get('of', '')}e{site.get('entry', 0)}:{exc}"
